@@ -27,6 +27,7 @@ type Explored struct {
 	Outs    []RecoverOut `json:"outs"`
 	Pre     []QBucket    `json:"pre,omitempty"`
 	Double  []DoubleCrash `json:"double,omitempty"` // C34: crashes during the recovery of selected images
+	PL      []PLObs       `json:"pl,omitempty"`     // C04: power-loss images
 	Err     string  `json:"err,omitempty"`
 }
 
@@ -113,6 +114,11 @@ func optsFor(prop string, tier string, i int, r *rng.Rand) GenOpts {
 		o.Clean = true
 		o.Ckpt = i%3 == 2
 		o.MaxSteps = 4
+	case "C04":
+		o.Clean = true
+		o.Ckpt = i%2 == 0
+		o.NoVariable = i%3 == 0
+		o.MaxSteps = 5
 	}
 	return o
 }
@@ -147,12 +153,15 @@ func exploreHistory(h History, dir string, tier string, workers int, kind string
 	}
 	d := Decode(ex.Ops, root, h.VrlOf, nil)
 	ex.Ks = Prefixes(d, maxPrefixes(tier))
-	if kind == "C35" {
+	if kind == "C35" || kind == "C04" {
 		ex.Ks = []int{len(ex.Ops)} // only the final image matters (all prefixes are C01-C03's business)
 	}
 	obs := Explore(&h, d, ex.Ops, ex.Ks, filepath.Join(dir, "img"), workers)
 	if kind == "C34" {
 		ex.Double = ExploreDouble(&h, d, ex.Ops, root, filepath.Join(dir, "dbl"), tier)
+	}
+	if kind == "C04" {
+		ex.PL = ExplorePL(&h, d, ex.Ops, filepath.Join(dir, "pl"), tier)
 	}
 	for _, o := range obs {
 		ex.Outs = append(ex.Outs, o.Raw)
@@ -339,6 +348,13 @@ func DriverMain(prop string, args []string) int {
 				l.Prefixes += len(dc.Js)
 			}
 		}
+		plterm := "[]"
+		if prop == "C04" {
+			var pfails []FailRow
+			plterm, pfails = h.PLTerm(d, ex.PL)
+			l.Fails = append(l.Fails, pfails...)
+			l.Prefixes += len(ex.PL)
+		}
 		// oracle
 		classes := map[string]int{}
 		for _, f := range l.Fails {
@@ -357,7 +373,7 @@ func DriverMain(prop string, args []string) int {
 				fl = append(h.OracleC01(d, o), h.OracleC03(d, o)...)
 			case "C35":
 				fl = h.OracleC35(d, o, ex.Pre)
-			case "C34":
+			case "C34", "C04":
 				fl = h.OracleC01(d, o)
 			}
 			for _, v := range fl {
@@ -385,7 +401,7 @@ func DriverMain(prop string, args []string) int {
 			vw.WriteString(";\n")
 		}
 		first = false
-		vw.WriteString(CaseTerm(h, d, sched, obs, Tgid0(d), double))
+		vw.WriteString(CaseTerm(h, d, sched, obs, Tgid0(d), double, plterm))
 	}
 	vw.WriteString("\n].\n")
 	vw.Flush()
